@@ -224,3 +224,89 @@ func widthTexts(w, n int) []string {
 func widthSeq(text, half string) []Upd {
 	return []Upd{{0, text}, {1, "x"}, {0, text}, {1, text}, {0, half}}
 }
+
+// ---- undecodable bytes around the cut (invalid-utf8 family)
+
+// badUnits: one unit per class of byte that is not valid UTF-8. Every byte of a
+// unit is undecodable on its own as long as the byte after the unit is not a
+// continuation byte (it is ASCII, ESC or the end of the line in badText), so a
+// unit occupies len(unit) columns.
+var badUnits = []string{
+	"\x80", "\xa0", "\xbf", // a lone continuation byte (Latin-1: 0xA0 no-break space)
+	"\xc3", "\xe9", "\xf0", // a lone lead byte of a 2-, 3-, 4-byte sequence (Latin-1: 0xE9 e acute)
+	"\xe2\x80", "\xf0\x9d\x84", // a truncated 3-byte and 4-byte sequence
+	"\xc0\xaf", // an overlong encoding
+	"\xff",     // never valid
+}
+
+var badArrangements = []string{"plain", "esc-after", "colour-before", "wrapped"}
+
+// badText: n columns, the unit occupying columns p..p+len(unit)-1, distinct
+// ASCII letters and digits elsewhere.
+//
+//	plain          no escape
+//	esc-after      ESC[31m directly after the unit, the reset at the end
+//	colour-before  ESC[31m at the start, the reset directly before the unit
+//	               (with p+len(unit) == n the line ends with the unit, and is
+//	               longer than its n columns only through escape bytes)
+//	wrapped        ESC[31m at the start, the reset at the end
+func badText(n, p int, unit, arr string) string {
+	var sb strings.Builder
+	if arr == "colour-before" || arr == "wrapped" {
+		sb.WriteString("\x1b[31m")
+	}
+	for i := 0; i < n; {
+		if i == p {
+			if arr == "colour-before" {
+				sb.WriteString("\x1b[0m")
+			}
+			sb.WriteString(unit)
+			if arr == "esc-after" {
+				sb.WriteString("\x1b[31m")
+			}
+			i += len(unit)
+			continue
+		}
+		sb.WriteRune(visAlphabet[i%62]) // the ASCII part of the alphabet
+		i++
+	}
+	if arr == "esc-after" || arr == "wrapped" {
+		sb.WriteString("\x1b[0m")
+	}
+	return sb.String()
+}
+
+// badTexts: for width w, lines of n columns for n around w (shorter than,
+// equal to, longer than the width) with every unit placed so that it starts
+// anywhere from four columns before the cut to two after it (its bytes lie
+// before the cut, exactly at it - the w-th column -, across it and after it),
+// and as the last and the second-to-last thing of the line; in every escape
+// arrangement.
+func badTexts(w int) []string {
+	var out []string
+	seenN := map[int]bool{}
+	for _, n := range []int{w - 1, w, w + 1, w + 2, w + 3, 2*w + 2} {
+		if n < 1 || seenN[n] {
+			continue
+		}
+		seenN[n] = true
+		for _, u := range badUnits {
+			seenP := map[int]bool{}
+			var ps []int
+			for p := w - 4; p <= w+2; p++ {
+				ps = append(ps, p)
+			}
+			ps = append(ps, n-len(u), n-len(u)-1)
+			for _, p := range ps {
+				if p < 0 || p+len(u) > n || seenP[p] {
+					continue
+				}
+				seenP[p] = true
+				for _, arr := range badArrangements {
+					out = append(out, badText(n, p, u, arr))
+				}
+			}
+		}
+	}
+	return out
+}
